@@ -18,7 +18,7 @@ From Oras Require Import Model.OciGC Proofs.OciGC.
    push blob; push image; push referrer-of-image; GC. *)
 Theorem C09_gc_terminates_refuted :
   (forall fuel, walk_orig subject_w [2; 1; 0] [] fuel 2 = None) /\
-  snd (step succ_w subject_w manifest_w cfg_orig (run_w cfg_orig [OPush 0; OPush 1; OPush 2]) OGC) = EHang.
+  snd (step succ_w subject_w manifest_w cfg_orig false (run_w cfg_orig [OPush 0; OPush 1; OPush 2]) OGC) = EHang.
 Proof. exact gc_terminates_refuted_final. Qed.
 Print Assumptions C09_gc_terminates_refuted.
 
@@ -26,8 +26,8 @@ Print Assumptions C09_gc_terminates_refuted.
    iteration order of every pass. *)
 Theorem C09_gc_terminates :
   forall succ subject, acyclic succ -> subject_listed succ subject ->
-  forall ords st, same_elements ords (candidates (idx st)) ->
-  snd (gc succ subject cfg_fixed ords st) = Ok.
+  forall kl ords st, same_elements ords (candidates (idx st)) ->
+  snd (gc succ subject cfg_fixed kl ords st) = Ok.
 Proof. exact gc_terminates_final. Qed.
 Print Assumptions C09_gc_terminates.
 
@@ -39,9 +39,9 @@ Print Assumptions C09_gc_terminates.
    a known algorithm directory.  Independent of all iteration orders. *)
 Theorem C09_gc_exact :
   forall succ subject, acyclic succ -> subject_listed succ subject ->
-  forall ords st, same_elements ords (candidates (idx st)) ->
+  forall kl ords st, same_elements ords (candidates (idx st)) ->
   exists st',
-    gc succ subject cfg_fixed ords st = (st', Ok) /\
+    gc succ subject cfg_fixed kl ords st = (st', Ok) /\
     (forall x, In x (blobs st') <-> In x (blobs st) /\ Live succ subject st x) /\
     (forall x, In x (gnodes st') <-> Live succ subject st x) /\
     (forall t n, In (RTag t, n) (idx st') <-> In (RTag t, n) (idx st)) /\
@@ -54,8 +54,8 @@ Print Assumptions C09_gc_exact.
 (* Before the repair (F13) one referrer pass made the result depend on the map order. *)
 Theorem C09_gc_order_refuted :
   let st := run_w cfg_fixed [OPush 0; OPush 1; OPush 5; OPush 6; OPush 7; OTag 1 0] in
-  In 7 (blobs (fst (gc succ_w subject_w cfg_noF13 (fun _ => [6; 7; 5]) st))) /\
-  ~ In 7 (blobs (fst (gc succ_w subject_w cfg_noF13 (fun _ => [7; 6; 5]) st))) /\
+  In 7 (blobs (fst (gc succ_w subject_w cfg_noF13 false (fun _ => [6; 7; 5]) st))) /\
+  ~ In 7 (blobs (fst (gc succ_w subject_w cfg_noF13 false (fun _ => [7; 6; 5]) st))) /\
   (forall n, In n [6; 7; 5] <-> In n (candidates (idx st))).
 Proof. exact gc_noF13_order_dependent. Qed.
 Print Assumptions C09_gc_order_refuted.
@@ -136,7 +136,7 @@ Print Assumptions C09_delete_absent.
 (* the well-formedness hypothesis of C09_delete_exact holds after every history *)
 Theorem C09_store_wf :
   forall succ subject manifest, acyclic succ -> subject_listed succ subject ->
-  forall ops, wf (fold_left (fun st o => fst (step succ subject manifest cfg_fixed st o)) ops init).
+  forall kl ops, wf (fold_left (fun st o => fst (step succ subject manifest cfg_fixed kl st o)) ops init).
 Proof. exact wf_final. Qed.
 Print Assumptions C09_store_wf.
 
@@ -162,13 +162,13 @@ Proof. exact hyps_satisfiable. Qed.
 
 Example C09_example_gc :
   let st := run_w cfg_fixed [OPush 0; OPush 1; OPush 2; OPush 3; OPush 5; OPush 6; OPush 7; OTag 1 0; ODelete 3] in
-  let st' := fst (step succ_w subject_w manifest_w cfg_fixed st OGC) in
-  blobs st' = [7; 6; 5; 1; 0] /\ snd (step succ_w subject_w manifest_w cfg_fixed st OGC) = Ok.
+  let st' := fst (step succ_w subject_w manifest_w cfg_fixed false st OGC) in
+  blobs st' = [7; 6; 5; 1; 0] /\ snd (step succ_w subject_w manifest_w cfg_fixed false st OGC) = Ok.
 Proof. exact example_gc. Qed.
 
 Example C09_example_delete :
   let st := run_w cfg_fixed [OPush 0; OPush 1; OPush 2; OPush 3; OPush 5; OPush 6; OPush 7; OTag 5 0] in
   autogc st = true /\ In 1 (blobs st) /\
-  blobs (fst (step succ_w subject_w manifest_w cfg_fixed st (ODelete 1))) = [7; 5; 0] /\
-  snd (step succ_w subject_w manifest_w cfg_fixed st (ODelete 1)) = Ok.
+  blobs (fst (step succ_w subject_w manifest_w cfg_fixed false st (ODelete 1))) = [7; 5; 0] /\
+  snd (step succ_w subject_w manifest_w cfg_fixed false st (ODelete 1)) = Ok.
 Proof. exact example_delete. Qed.
